@@ -22,7 +22,10 @@ def lensJ (l : List (Bytes × Nat)) : Json :=
 
 def handle (op : String) (j : Json) : Except String Json := do
   let recs ← getRecs j
-  let file := fileOf recs
+  let noNL := match j.getObjVal? "no_final_newline" with
+    | .ok (Json.bool b) => b
+    | _ => false
+  let file := if noNL then (fileOf recs).dropLast else fileOf recs
   let spec := (specIndex recs).map (fun r => { r with name := firstWord r.name })
   match op with
   | "index" =>
